@@ -83,6 +83,13 @@ def gen_render():
         items = [f"({reg_name(k)}, {fmt_spec(v)})" for k, v in sorted(reg.items(), key=lambda kv: str(kv[0]))]
         t += f"/-- `{nm}`: {', '.join(str(k) for k in sorted(reg, key=str))} -/\n"
         t += f"def {nm} : List (Option PStr × FmtSpec) := [\n  " + ",\n  ".join(items) + "]\n"
+    probe = lambda x: x
+    t += "/-- the formatter `formatter_for_name` makes of a callable: `HTMLFormatter(entity_substitution=fn)` (false) / `XMLFormatter(entity_substitution=fn)` (true); the function code is a placeholder -/\n"
+    t += "def ctorDefaults : Bool → FmtSpec\n"
+    t += f"  | false => {fmt_spec(HTMLFormatter(entity_substitution=probe))}\n"
+    t += f"  | true => {fmt_spec(XMLFormatter(entity_substitution=probe))}\n"
+    t += "/-- the registry `formatter_for_name` consults, by `_is_xml` -/\n"
+    t += "def registryOf : Bool → List (Option PStr × FmtSpec)\n  | false => htmlRegistry\n  | true => xmlRegistry\n"
     t += f"/-- `Formatter.HTML_DEFAULTS['cdata_containing_tags']` -/\n"
     from bs4.formatter import Formatter
     t += f"def htmlCdataTags : List PStr := [{', '.join(lean_str(x) for x in sorted(Formatter.HTML_DEFAULTS['cdata_containing_tags']))}]\n"
